@@ -40,6 +40,6 @@ def one(i):
     shutil.rmtree(src)
     return i, 'KEPT', ''
 
-with ThreadPoolExecutor(max_workers=5) as ex:
+with ThreadPoolExecutor(max_workers=10) as ex:
     for i, st, detail in ex.map(one, ids):
         print(i, st, detail, flush=True)
